@@ -1943,7 +1943,13 @@ func RunProgram(p Program, cfg Config) (viol *Violation, st Stats) {
 	}
 	var states []*db19.DbState
 	if cfg.CheckStates {
-		f := func(s *db19.DbState) { states = append(states, s) } // called under the state mutex, by one goroutine at a time
+		// called under the database's state mutex by whichever goroutine
+		// publishes a state (checker, merger); read by the case's goroutine
+		f := func(s *db19.DbState) {
+			r.stateMu.Lock()
+			states = append(states, s)
+			r.stateMu.Unlock()
+		}
 		db19.VerifStateUpdated.Store(&f)
 		defer db19.VerifStateUpdated.Store(nil)
 	}
@@ -2000,8 +2006,10 @@ func RunProgram(p Program, cfg Config) (viol *Violation, st Stats) {
 		}
 		if cfg.CheckStates && len(states) > 0 {
 			r.syncChecker()
+			r.stateMu.Lock()
 			ss := states
 			states = nil
+			r.stateMu.Unlock()
 			r.checkStates(ss)
 		}
 	}
